@@ -617,3 +617,67 @@ VARIANTS += [
     V('C11-E21', 'E', ALL, WK, 'Worker.start', r'(\n        )try:\n(\s+)if self\.batch_size > 1:', r'\1logger.debug("worker %s starts", self.name)\1try:\n\2if self.batch_size > 1:', note='logging before the guarded region'),
     V('C11-E22', 'E', ALL, WK, 'Worker.run', r'(\n        )obj\.start\(q_in=q_in, q_out=q_out\)', r'\1logger.info("worker %s is up", obj.name)\1obj.start(q_in=q_in, q_out=q_out)'),
 ]
+
+VARIANTS += [
+    _xm('G-xm-07', SV,
+        """                if isinstance(y, RemoteException):
+                    y = y.exc
+                if not fut.cancelled():
+                    try:
+                        if isinstance(y, BaseException):
+                            fut.set_exception(y)
+                        else:
+                            fut.set_result(y)
+                    except concurrent.futures.InvalidStateError:
+                        # The caller cancelled the future (timeout, or an
+                        # abandoned stream) after the check above.
+                        pass
+                fut.data['t2'] = perf_counter()
+""",
+        """                self._resolve(fut, y)
+                fut.data['t2'] = perf_counter()
+""",
+        """    def _resolve(self, fut, y):
+        if isinstance(y, RemoteException):
+            y = y.exc
+        if fut.cancelled():
+            return
+        try:
+            if isinstance(y, BaseException):
+                fut.set_exception(y)
+            else:
+                fut.set_result(y)
+        except concurrent.futures.InvalidStateError:
+            pass
+
+""",
+        "    def _wait_for_result(self, fut: concurrent.futures.Future):\n", note='extracted helper with an early return'),
+    _xm('G-xm-08', QU,
+        """        if not self._used_lids.full():
+            raise RuntimeError('the object is not in a renewable state')
+        z = self._q.get()  # take out the extra `None`
+        if z is not None:
+            raise RuntimeError(f'expecting None, got {z}')
+""",
+        """        self._take_marker()
+""",
+        """    def _take_marker(self):
+        if not self._used_lids.full():
+            raise RuntimeError('the object is not in a renewable state')
+        z = self._q.get()  # take out the extra `None`
+        if z is not None:
+            raise RuntimeError(f'expecting None, got {z}')
+
+""",
+        "    def renew(self):\n", note='marker removal of renew() extracted'),
+    _xm('G-xm-09', SL,
+        """            z = {'y': [None] * nn, 'n': 0}
+""",
+        """            z = self._new_entry(nn)
+""",
+        """    def _new_entry(self, n_members):
+        return {'y': [None] * n_members, 'n': 0}
+
+""",
+        "    def _dequeue(self):\n", note='one-line factory helper'),
+]
